@@ -817,6 +817,115 @@ fn run_dearmor_consumers(ctx: &mut Ctx, key: &SignedSecretKey) {
     }
 }
 
+/// the reader below a `PacketParser`: delivers `pre` (in pieces), then ends or fails
+struct PreThenTail<'a> {
+    pre: &'a [u8],
+    piece: usize,
+    tail: u8,
+    fired: bool,
+}
+
+impl Read for PreThenTail<'_> {
+    fn read(&mut self, buf: &mut [u8]) -> std::io::Result<usize> {
+        if buf.is_empty() {
+            return Ok(0);
+        }
+        if self.pre.is_empty() {
+            return match self.tail {
+                0 => Ok(0),
+                _ if self.fired => Ok(0),
+                1 => { self.fired = true; Err(std::io::Error::new(std::io::ErrorKind::UnexpectedEof, "reader below failed")) }
+                _ => { self.fired = true; Err(std::io::Error::other("reader below failed")) }
+            };
+        }
+        let n = self.pre.len().min(buf.len()).min(self.piece.max(1));
+        buf[..n].copy_from_slice(&self.pre[..n]);
+        self.pre = &self.pre[n..];
+        Ok(n)
+    }
+}
+
+/// where a packet stream ends, and what a failing reader below means (model: PacketIter.lean)
+fn run_next_hdr(ctx: &mut Ctx) {
+    use pgp::packet::PacketParser;
+    let mut pres: Vec<Vec<u8>> = vec![vec![]];
+    // every prefix of headers of every form, headers followed by some body, octets that start no header
+    for h in [vec![0xCBu8, 3], vec![0xC2, 0xC5, 0x01], vec![0xC2, 0xFF, 0, 0, 0, 9], vec![0x89, 0x01, 0x00], vec![0x8A, 0, 0, 1, 0], vec![0x8B], vec![0xCB, 0xE9], vec![0x88, 5]] {
+        for cut in 0..=h.len() {
+            pres.push(h[..cut].to_vec());
+        }
+        let mut with_body = h.clone();
+        with_body.extend_from_slice(&[1, 2, 3]);
+        pres.push(with_body);
+    }
+    pres.push(vec![0x00]);
+    pres.push(vec![0x3F, 1, 2]);
+    for _ in 0..ctx.pick(60, 600) {
+        let n = ctx.rng.gen_range(1..7usize);
+        let mut v = gen::random_bytes(&mut ctx.rng, n);
+        if ctx.rng.gen_bool(0.7) {
+            v[0] |= 0x80;
+        }
+        pres.push(v);
+    }
+    pres.sort();
+    pres.dedup();
+    for pre in &pres {
+        for tail in 0u8..3 {
+            for it in 0u8..2 {
+                let mut answers: Vec<String> = Vec::new();
+                for piece in [1usize, 2, 64] {
+                    let r = guarded(|| {
+                        let src = BufReader::with_capacity(if piece == 64 { 64 } else { piece.max(1) }, PreThenTail { pre, piece, tail, fired: false });
+                        let mut p = PacketParser::new(src);
+                        let hdr_text = |h: pgp::packet::PacketHeader| {
+                            let fmt = match h.version() { pgp::types::PacketHeaderVersion::New => 1, pgp::types::PacketHeaderVersion::Old => 0 };
+                            let kind = match h.packet_length() {
+                                pgp::types::PacketLength::Fixed(n) => format!("f{n}"),
+                                pgp::types::PacketLength::Partial(n) => format!("p{n}"),
+                                pgp::types::PacketLength::Indeterminate => "i".to_string(),
+                            };
+                            format!("ok:hdr:{fmt}.{}.{kind}", u8::from(h.tag()))
+                        };
+                        if it == 0 {
+                            match p.next_ref() {
+                                None => "ok:done".to_string(),
+                                Some(Err(_)) => "ok:err".to_string(),
+                                Some(Ok(b)) => hdr_text(b.packet_header()),
+                            }
+                        } else {
+                            // (header stage of the iterator: an item whose header was read is reported by
+                            //  that header, whatever became of its body)
+                            match p.next() {
+                                None => "ok:done".to_string(),
+                                Some(Ok(pk)) => hdr_text(*pgp::packet::PacketTrait::packet_header(&pk)),
+                                Some(Err(_)) => "item-err".to_string(),
+                            }
+                        }
+                    });
+                    answers.push(r.unwrap_or_else(|p| format!("panic {p}")));
+                }
+                let same = answers.iter().all(|a| *a == answers[0]);
+                ctx.oracle("read_independent_of_schedule", "PacketParser over a reader that delivers, then ends or fails", &format!("pre={} tail={tail} it={it}", hx(pre)), same, &format!("{answers:?}"));
+                let ans = answers[0].clone();
+                let req = format!("next_hdr pre={} tail={tail} it={it}", hx(pre));
+                if ans == "item-err" {
+                    // the iterator's item is an error: either the header stage failed (model: err) or the
+                    // header was read and the body could not be (model: hdr)
+                    ctx.case(format!("{req} item=err"), "ok:err-or-hdr".to_string());
+                } else {
+                    ctx.case(req.clone(), ans.clone());
+                }
+                // the property, without the model: a failing reader is never the end of the packets
+                if tail != 0 {
+                    ctx.oracle("reader_source_fault_surfaces", "PacketParser over a reader that fails while a header is read", &format!("pre={} tail={tail} it={it}", hx(pre)), ans != "ok:done", &ans);
+                }
+                ctx.stat("next_hdr");
+            }
+        }
+    }
+}
+
 fn run_model_ops(ctx: &mut Ctx) {
     // fill_buffer: exhaustive chunkings of short inputs x requested sizes
     for n in 0..=6usize {
@@ -901,6 +1010,7 @@ pub fn run(ctx: &mut Ctx) {
     run_alg_sweep(ctx, &key);
     run_fault_kinds(ctx, &key);
     run_dearmor_consumers(ctx, &key);
+    run_next_hdr(ctx);
     // thorough: repeated with fresh payloads, schedules and fault positions
     let rounds = ctx.pick(1u64, 160u64);
     let base = ctx.seed;
